@@ -2,6 +2,7 @@ package main
 
 import (
 	"bufio"
+	"bytes"
 	"errors"
 	"io"
 	"math/rand"
@@ -118,6 +119,7 @@ func runStream(data []byte, errat int, errkind string, sched []int, withData boo
 		snap *readRes
 	}
 	var raws []rawRes
+	var prevRaw *message.MessageRaw
 	for calls := 0; calls < limit+8; calls++ {
 		var rr rawRes
 		func() {
@@ -130,8 +132,19 @@ func runStream(data []byte, errat int, errkind string, sched []int, withData boo
 		}()
 		rr.cur = src.drawn - br.Buffered()
 		if cfg.ownEdits && !rr.pan {
+			// a payload the caller was handed earlier is a slice of its own: appending to it (a router restoring the zeros
+			// that v2 truncation removed) must not reach into what the reader has returned since
+			if prevRaw != nil {
+				_ = append(prevRaw.Payload, bytes.Repeat([]byte{0xEE}, 48)...)
+				prevRaw = nil
+			}
 			snap := classify(rr.fr, rr.err)
 			rr.snap = &snap
+			if rr.err == nil && rr.fr != nil {
+				if m, ok := rr.fr.GetMessage().(*message.MessageRaw); ok && len(m.Payload) > 0 {
+					prevRaw = m
+				}
+			}
 			if rr.err == nil && rr.fr != nil {
 				func() {
 					defer func() { recover() }() //nolint:errcheck
